@@ -37,4 +37,5 @@ def run(ctx, rep):
     rep.run(RF.rule_memo_key_complete, ctx, rep, "R8")
     rep.run(RF.rule_directory_creation_tolerates_races, ctx, rep, "R9")
     rep.run(RF.rule_text_files_name_their_encoding, ctx, rep, "R10")
+    rep.run(RF.rule_configuration_is_fixed, ctx, rep, "R11")
     rep.run(RF.rule_locals_defined, ctx, rep, "U1", packages=("gtwrap/", "scripts/"), min_functions=3)
